@@ -39,7 +39,7 @@ def load_obligations(prop):
 
 
 def inputs(chk, n_gen, profiles=None):
-    files = [(f, None) for f in pipeline.repo_programs() + pipeline.corpus_programs()]
+    files = [(f, None) for f in pipeline.corpus_programs("regress") + pipeline.repo_programs() + [c for c in pipeline.corpus_programs() if "/corpus/regress/" not in c]]
     gdir = os.path.join(WORK, "gen_%s" % chk.id)
     subprocess.run(["rm", "-rf", gdir])
     cmd = ["python3", os.path.join(common.VERIF, "gen", "gen_fun.py"), str(chk.seed), str(n_gen), gdir]
@@ -47,7 +47,17 @@ def inputs(chk, n_gen, profiles=None):
     for f in sorted(os.listdir(gdir)):
         if f.endswith(".sc"):
             files.append((os.path.join(gdir, f), None))
+    files += [(f, None) for f in wide_types(chk)]
     return files
+
+
+def wide_types(chk):
+    """programs whose type-instance names sweep every printed width around the line width (gen/gen_widetypes.py)"""
+    wdir = os.path.join(WORK, "wide_%s" % chk.id)
+    subprocess.run(["rm", "-rf", wdir])
+    subprocess.run(["python3", os.path.join(common.VERIF, "gen", "gen_widetypes.py"), wdir], check=True, capture_output=True)
+    fs = sorted(os.path.join(wdir, f) for f in os.listdir(wdir) if f.endswith(".sc"))
+    return fs[::2] if chk.tier == "quick" else fs
 
 
 def args_for(path, nparams, rng):
